@@ -28,6 +28,12 @@ type c10Case struct {
 	// so that the next frame the server wants to write, the GOAWAY included, blocks; Filler WINDOW_UPDATE frames
 	// (no reply) go in front of the burst so that the stream loop lags behind the read loop. Reading resumes after
 	// the burst. The GOAWAY then has to be truthful although it could not be written when the error was found.
+	// AtLimit: MaxConcurrentStreams equals the number of in-flight requests, so their parked handlers hold every
+	// slot; LowRefused (needs AtLimit and in-flight requests): the first in-flight request skips one stream id, and a
+	// request on that lower, never-used id follows the in-flight ones: it is refused (the limit is checked first),
+	// and the GOAWAY that follows must still name the highest stream that reached a handler.
+	AtLimit      bool `json:"atlimit,omitempty"`
+	LowRefused   bool `json:"lowrefused,omitempty"`
 	Backpressure bool `json:"backpressure,omitempty"`
 	Filler       int  `json:"filler,omitempty"`
 }
@@ -157,6 +163,14 @@ func c10Run(c c10Case) Outcome {
 	if c.Off == "idle-timeout" {
 		cfg.IdleTimeout = 40 * time.Millisecond
 	}
+	if c.Off == "lower-stream-id" {
+		// with every slot held this implementation refuses the two streams (the limit is checked before the id),
+		// which is a stream-level answer and not the connection error this offence is about: not combined
+		c.AtLimit = false
+	}
+	if c.AtLimit && c.InFlight > 0 {
+		cfg.MaxConcurrentStreams = c.InFlight
+	}
 	h := peer.Start(cfg)
 	defer h.Close()
 	h.SendSettings(nil)
@@ -206,9 +220,24 @@ func c10Run(c c10Case) Outcome {
 			_ = h.Write(rawframe.Append(nil, rawframe.WindowUpdate, 0, 0, rawframe.U32(1)))
 		}
 	}
+	lowID := uint32(0)
+	if c.AtLimit && c.LowRefused && c.InFlight > 0 {
+		lowID = id
+		id += 2
+	}
 	for i := 0; i < c.InFlight; i++ {
 		open = id
 		send(fmt.Sprintf("f%d", i))
+		if !c.Burst {
+			if ok, d := h.Quiesce(); !ok {
+				return Outcome{Inconcl: "no quiescence before the offence: " + d}
+			}
+		}
+	}
+	if lowID != 0 {
+		// every slot is held: this one is refused, whatever its id
+		idOf["low"] = lowID
+		sendReq(h, lowID, simpleReq("low"))
 		if !c.Burst {
 			if ok, d := h.Quiesce(); !ok {
 				return Outcome{Inconcl: "no quiescence before the offence: " + d}
@@ -334,6 +363,9 @@ func c10Run(c c10Case) Outcome {
 	if c.Backpressure {
 		cls = append(cls, "backpressure")
 	}
+	if lowID != 0 {
+		cls = append(cls, "low-id-refused-at-limit")
+	}
 	for _, g := range gas {
 		if g.Last < maxDispatched {
 			return fail("goaway-lies", "offence %q: GOAWAY(last-stream-id=%d, %s) but the request on stream %d was handed to a handler (a client would replay it)", c.Off, g.Last, peer.CodeName(g.Code), maxDispatched)
@@ -400,6 +432,8 @@ func c10Gen(t *rapid.T) c10Case {
 		Trail:        rapid.SampledFrom([]string{"silent", "valid", "flood", "noread", "close"}).Draw(t, "trail"),
 		TrailN:       rapid.IntRange(0, 300).Draw(t, "trailn"),
 		Burst:        rapid.Bool().Draw(t, "burst"),
+		AtLimit:      rapid.IntRange(0, 3).Draw(t, "atlimit") == 0,
+		LowRefused:   rapid.Bool().Draw(t, "lowrefused"),
 		Backpressure: rapid.IntRange(0, 3).Draw(t, "backpressure") == 0,
 		Filler:       rapid.SampledFrom([]int{0, 10, 60, 110}).Draw(t, "filler"),
 	}
